@@ -130,9 +130,9 @@ static void fragmentHistory(vh::Rng& rng, int L) {
       else {
         const auto letter = m.GetRS(uid).type == CstType::base ? std::string("X") : std::string("D");
         const auto name = letter + std::to_string(rng.range(1, 5));
-        // renaming WITH substitution keeps the meaning; without substitution is judged by the general histories
-        const bool ok = m.SetAliasFor(uid, name, true);
-        emit(ok ? "c11 setalias " + std::to_string(uid) + " " + name + " 1" : std::string("c11 noop"), "ok");
+        const bool subst = rng.chance(1, 2);
+        const bool ok = m.SetAliasFor(uid, name, subst);
+        emit(ok ? "c11 setalias " + std::to_string(uid) + " " + name + (subst ? " 1" : " 0") : std::string("c11 noop"), "ok");
       }
     } else if (r < 60) {
       const auto uid = pickUid();
@@ -192,7 +192,7 @@ static void generalHistory(vh::Rng& rng, int L) {
       if (m.Contains(uid)) {
         static const char letters[] = "XSADFT";
         std::string name(1, letters[rng.range(0, 5)]); name += std::to_string(rng.range(1, 4));
-        m.SetAliasFor(uid, name, true);
+        m.SetAliasFor(uid, name, rng.chance(1, 2));
       }
       what = "setalias";
     } else if (r < 57) { m.Values().AddBasicElement(pickUid(), "n" + std::to_string(i)); what = "addelem"; }
